@@ -1276,3 +1276,50 @@ Definition run_C03_dispatch (entry : N) (mode : str) (r i w a : bool) : val :=
 Definition is_binary_handle (io_binary has_encoding mode_b : bool) : bool := io_binary || (negb has_encoding && mode_b).
 Definition run_C03_hkind (io_binary has_encoding mode_b : bool) : val :=
   VL [VB true; VB (is_binary_handle io_binary has_encoding mode_b)].
+
+(* ------------------------------------------------------------------ writing into an archive and reading it back
+   _resolve_archive (main.py:135-140): the file is written as <tmpdir>/basename(name), then shutil.make_archive(name, archive,
+   tmpdir) creates name + "." + <extension of the archive type>; reading that file: archive branch, <tmpdir>/**/*.* (main.py:226-228).
+   glob's *.* on one path component: the name contains a dot and does not begin with one (hidden files are skipped). *)
+Definition archive_type_ext (arch : str) : option str :=
+  if name_is arch "zip"%bs then Some (bs "zip"%bs)
+  else if name_is arch "tar"%bs then Some (bs "tar"%bs)
+  else if name_is arch "gztar"%bs then Some (bs "tar.gz"%bs)
+  else if name_is arch "bztar"%bs then Some (bs "tar.bz2"%bs)
+  else if name_is arch "xztar"%bs then Some (bs "tar.xz"%bs)
+  else None.
+Definition glob_star_dot_star (b : str) : bool := negb (startswith [dot] b) && contains [dot] b.
+(* the file system after objs.write(name, fmt, archive=...): one archive name.ext holding the member basename(name) *)
+Definition written_fs (tmp name ext : str) : fsys :=
+  {| fs_glob := fun p => if str_eqb p (tmp ++ glob_tail) && glob_star_dot_star (basename name)
+                         then [tmp ++ [slash] ++ basename name] else [];
+     fs_unpack := fun n f => if str_eqb n (name ++ dot :: ext) && match f with None => true | Some _ => false end then Some tmp else None;
+     fs_gunzip := fun _ => None |}.
+(* reading the written archive: true = the member reaches the reader as a plain file *)
+Definition readback_ok (tmp name ext : str) : bool :=
+  match resolve_run 4 (written_fs tmp name ext) [] [] true (name ++ dot :: ext) ANone with
+  | ROk [LFile n] => str_eqb n (tmp ++ [slash] ++ basename name)
+  | _ => false
+  end.
+Definition run_C03_wround (name arch : str) : val :=
+  (* names with wildcard characters are patterns when read (whether a pattern matches its own text is glob's business) *)
+  VL [VB (match archive_type_ext arch with Some _ => negb (has_magic name) | None => false end);
+      match archive_type_ext arch with
+      | Some ext => VB (readback_ok (bs "<T>"%bs) name ext)
+      | None => VNone
+      end].
+
+(* ------------------------------------------------------------------ the tool option of read / iter_ / write (main.py:265-270,
+   341-346, 430-434): 'biopython' hands over to Bio.SeqIO, any other non-empty text is a ValueError, None and '' mean the plugin *)
+Inductive toolsel := TPlugin | TBiopython | TBadTool.
+Definition tool_choice (tool : option str) : toolsel :=
+  match tool with
+  | None => TPlugin
+  | Some t => if name_is t "biopython"%bs then TBiopython else match t with [] => TPlugin | _ => TBadTool end
+  end.
+Definition run_C03_tool (tool : option str) : val :=
+  VL [VB true; match tool_choice tool with
+               | TPlugin => VS (bs "plugin"%bs)
+               | TBiopython => VS (bs "biopython"%bs)
+               | TBadTool => VE (bs "ValueError"%bs)
+               end].
